@@ -43,7 +43,7 @@ class C01(Check):
     REQUIRED_OBSERVED = ['groups_compared', 'items_compared']
 
     def generate(self, rng, tier, shard, nshards):
-        n = 8000 if tier == 'quick' else 40000
+        n = 6000 if tier == 'quick' else 40000
         modes = ['group', 'group', 'group', 'multiplex', 'roll', 'split']
         for k in range(n):
             truthy = (k % 10 == 9)
@@ -63,7 +63,7 @@ class C01(Check):
             yield case
 
     # ------------------------------------------------------------------
-    def _plain(self, prog, items, out):
+    def _plain(self, prog, items, out, cache):
         """-> Snap of the plain path, or None when the case is outside the preconditions"""
         try:
             model.run(prog, items, plain=True)
@@ -73,7 +73,15 @@ class C01(Check):
         except Exception as e:          # noqa: BLE001 - the model cannot decide this program: do not guess
             out.discarded = 'model cannot decide the precondition: ' + type(e).__name__
             return None
-        return progs.run_plain(prog, items)
+        # The operator chain is built ONCE per program and re-used for every group: rxsci operators are
+        # factories applied to a source, and re-subscribing the same chain must not share state (seeds).
+        if id(prog) not in cache:
+            cache[id(prog)] = (prog, progs.build(prog))       # keeps `prog` alive, so the id stays unique
+        ops_ = cache[id(prog)][1]
+        import rx
+        from ..common import Snap, subscribe
+        return subscribe(rx.from_(items).pipe(*ops_) if ops_ else rx.from_(items), Snap())
+
 
     def evaluate(self, case):
         out = Outcome()
@@ -133,8 +141,9 @@ class C01(Check):
                 units.append((j, prog, lt.items, ts[i].items if i < len(ts) else []))
 
         plains = []
+        cache = {}
         for g, P, its, mux_out in units:
-            s = self._plain(P, its, out)
+            s = self._plain(P, its, out, cache)
             if s is None:
                 return out
             plains.append(s)
